@@ -36,7 +36,8 @@ def run_records(sc, model=None, sim=None, register_stocks=False):
     return out
 
 
-def cmp_records(pid, a, b, what, rtol=0.0, atol_scale=0.0, names=RECORDS, rows_a=None, rows_b=None, scale_b=1.0, extra_abs=0.0):
+def cmp_records(pid, a, b, what, rtol=0.0, atol_scale=0.0, names=RECORDS, rows_a=None, rows_b=None, scale_b=1.0, extra_abs=0.0,
+                ignore_crash=False):
     """compare record sets; rtol = 0 means bitwise"""
     out = []
     if "error" in a or "error" in b:
@@ -44,7 +45,9 @@ def cmp_records(pid, a, b, what, rtol=0.0, atol_scale=0.0, names=RECORDS, rows_a
             out.append(viol(pid, 0, f"{what}: one run failed and the other did not", a=a.get("error"), b=b.get("error")))
         return out
     nmin = None
-    if a["crashed"] != b["crashed"] or (a["crashed"] and a["n"] != b["n"]):
+    if ignore_crash:
+        pass
+    elif a["crashed"] != b["crashed"] or (a["crashed"] and a["n"] != b["n"]):
         if rtol == 0.0 and extra_abs == 0.0:
             out.append(viol(pid, 0, f"{what}: crashed flag / crash step differs", a=(a["crashed"], a["n"]), b=(b["crashed"], b["n"])))
             return out
@@ -93,7 +96,8 @@ def c10_prefix(sc, base):
     if "error" in base or "error" in b:
         return []
     rows = slice(0, first)
-    return cmp_records("C10", base, b, f"rows before the earliest occurrence ({first}) vs the event-free run", rows_a=rows, rows_b=rows)
+    return cmp_records("C10", base, b, f"rows before the earliest occurrence ({first}) vs the event-free run", rows_a=rows, rows_b=rows,
+                       ignore_crash=True)
 
 
 # ------------------------------------------------------------------ C11: order of events, way of adding
